@@ -239,6 +239,11 @@ def r6_recipient_tables(ctx):
     C05.r1_recipients(ctx)
 
 
+def r7_send_cursor(ctx):
+    """Never twice: the client sends through its persistent cursor, which is never rewound (same rule as C05.R4)."""
+    C05.r4_cursor(ctx)
+
+
 RULES = [
     ("C13.R1", "run-condition table of the event systems", r1_run_conditions, 9, ["default", "all-features"]),
     ("C13.R2", "remote send and local re-emission of client events are mutually exclusive", r2_mutual_exclusion, 5, None),
@@ -246,5 +251,6 @@ RULES = [
     ("C13.R4", "hand-over between the non-draining and the draining consumer on status edges", r4_hand_over, 5, ["default", "all-features"]),
     ("C13.R5", "local re-emission: SERVER identity and local recipient rules (C05.R1/R3)", r5_local_identity, 5, ["default", "all-features", "server-only"]),
     ("C13.R6", "SERVER is excluded from every remote send arm and served only by the local re-emitter (same rule as C05.R1)", r6_recipient_tables, 18, ["default", "all-features", "server-only"]),
+    ("C13.R7", "the client's send cursor is persistent and never rewound (same rule as C05.R4)", r7_send_cursor, 8, ["default", "all-features"]),
 ]
 THOROUGH_CONFIGS = ["default", "all-features", "server-only", "client-only"]
